@@ -178,8 +178,8 @@ fn ep_general(s: &mut S, r: &mut Rng, maxc: usize, maxr: usize, wt: &Weights, na
 
 /// "wrap-pending cursor across a width change": fill a row exactly, change the width (directly, or while
 /// the other screen is showing so that the re-wrap is deferred to the switch back), then print.
-fn ep_c04_wrap_resize(s: &mut S, r: &mut Rng, maxc: usize, maxr: usize) {
-    s.episode("C04");
+fn ep_c04_wrap_resize(s: &mut S, r: &mut Rng, maxc: usize, maxr: usize, name: &str) {
+    s.episode(name);
     let (c, rr) = gen::size(r, maxc, maxr);
     let slot = s.new_vt(c, rr, gen::limit(r));
     if r.chance(1, 2) {
@@ -220,6 +220,34 @@ fn ep_c04_wrap_resize(s: &mut S, r: &mut Rng, maxc: usize, maxr: usize) {
             1 => "\x1b[D".to_string(),
             _ => gen::print(r),
         };
+        s.feed_str(slot, &t, true);
+    }
+}
+
+// ---------------------------------------------------------------------------------- C05 (tabs)
+
+/// HT / CHT / CBT after resize chains through widths that coincide with tab stops.
+fn ep_c05_tabs(s: &mut S, r: &mut Rng) {
+    s.episode("C05");
+    let w2 = *r.pick(&[8usize, 16, 24, 32]);
+    let w1 = w2 + r.range(1, 12);
+    let w3 = w2 + r.range(1, 20);
+    let slot = s.new_vt(w1, r.range(1, 2), 0);
+    if r.chance(1, 3) {
+        let t = format!("\x1b[{}G\x1bH", r.range(2, w1));
+        s.feed_str(slot, &t, true);
+    }
+    s.resize(slot, w2, 1, true);
+    if r.chance(1, 4) {
+        s.resize(slot, *r.pick(&[8usize, 16, 24]), 1, true);
+    }
+    s.resize(slot, w3, 1, true);
+    for _ in 0..r.range(3, 8) {
+        let (c, _) = s.vt(slot).size();
+        let t = format!("\x1b[{}G", r.range(1, c));
+        s.feed_str(slot, &t, true);
+        let n = r.range(1, 3);
+        let t = if r.chance(1, 2) { format!("\x1b[{}I", n) } else { format!("\x1b[{}Z", n) };
         s.feed_str(slot, &t, true);
     }
 }
@@ -1242,7 +1270,9 @@ pub fn run(args: &Args) -> i32 {
             "C01" => ep_c01(&mut s, &mut r, maxc, maxr),
             "C02" => ep_c02(&mut s, &mut r, maxc, maxr),
             "C03" => ep_c03(&mut s, &mut r, maxc, maxr),
-            "C04" if r.chance(1, 5) => ep_c04_wrap_resize(&mut s, &mut r, maxc, maxr),
+            "C04" if r.chance(1, 5) => ep_c04_wrap_resize(&mut s, &mut r, maxc, maxr, "C04"),
+            "C05" if r.chance(1, 8) => ep_c04_wrap_resize(&mut s, &mut r, maxc, maxr, "C05"),
+            "C05" if r.chance(1, 10) => ep_c05_tabs(&mut s, &mut r),
             "C04" => ep_general(
                 &mut s,
                 &mut r,
